@@ -285,9 +285,9 @@ BODIES_SM = [  # (reactants, products) with coefficients; StatMech species: H !=
     ([['CM', 1.0]], [['SA', 1.5]]),
 ]
 BODIES_EMP = [  # empirical species: H descriptors only
-    ([['NG', 1.0]], [['NS', 2.0]]),
-    ([['NG', 0.5], ['NS', 1.0]], [['N9', 1.0]]),
-    ([['SH', 1.0], ['NS', 2.0]], [['NG', 1.0], ['SA', 1.0]]),
+    ([['XSG', 1.0]], [['NS', 2.0]]),
+    ([['XSG', 0.5], ['NS', 1.0]], [['N9', 1.0]]),
+    ([['SH', 1.0], ['NS', 2.0]], [['XSG', 1.0], ['SA', 1.0]]),
 ]
 
 
